@@ -26,6 +26,34 @@ edge     edge_path_to_ssa / edge_path_to_linear vs a direct simulation ("contrac
          from_path(edge_path=..., autocomplete=True) is complete and contains the simulated nodes.
 mixed    from_path on independently generated paths with 1- and >=3-tensor steps, complete or not,
          autocomplete True / False.
+
+Widened (the other getters / constructors / helpers that speak a path format):
+
+tree     additionally, for the same (tree, order): get_numpy_path(order) = ['einsum_path', *valid
+         linear path creating T's nodes in traverse(order)]; flat_tree(order) brackets exactly T's
+         nodes over the leaves 0..n-1; get_leaves_ordered() is a permutation of the leaves;
+         get_path_surface() / get_ssa_path_surface() are valid, create T's nodes, follow
+         traverse('surface_order') (resp. the default order of a ContractionTreeCompressed) and -
+         the surface score always puts a child strictly below its parent - contract lower scores
+         first (non-decreasing scores; ties free); ContractionTreeCompressed.from_path on an
+         incomplete path - ssa_path= and linear path= - (autocomplete True / 'auto' / False) is
+         complete / exactly the prefix and keeps the prefix at the head of its default order
+         (networks without any index are left out: their completion is a path finder's business).
+formats  one (network, tree) through: from_eq (same inputs / output, empty, then contracted by hand
+         along the path -> same nodes from both path getters); get_eq / get_shapes and the four
+         *_sliced getters against the network with the removed indices deleted, along a history
+         of remove_ind (sliced or projected, in place or not, output indices included) and
+         restore_ind, with get_path / get_ssa_path still describing the same nodes after every
+         phase; eq_to_inputs_output(get_eq()) as the second route back; from_info on a real
+         opt_einsum.PathInfo (a stand-in object with the four attributes for the empty path and
+         for 15% of the cases) for complete / mixed-arity / incomplete paths; from_path(check=True)
+         and autocomplete='auto'; the deprecated from_edge_path (autocomplete / check passed on);
+         is_ssa_path on paths that are valid in exactly one of the two formats; and the interface:
+         array_contract_path / array_contract_tree with optimize = explicit path | tree | edge
+         path (tuple or list, canonicalize on / off, cache on / off: two calls; the empty edge path
+         included).
+Not driven: ContractionTree.get_spans (spanning-tree embeddings, no path format: the property
+says nothing about it).
 """
 
 import itertools
@@ -47,7 +75,17 @@ RULE = (
     "independently generated linear/ssa paths with 1/2/3+ tensor steps; edge paths = ALL permutations of "
     "the index set when <=6 indices, seeded permutations + partial orders beyond. distinct = distinct "
     "(network, tree, order kind) | (n, path, format) | (network, edge path) | (network, path, format); "
-    "non-trivial = >=4 tensors (distinct_tree_order_n4 counts the (network, tree, order kind) cases alone)"
+    "non-trivial = >=4 tensors (distinct_tree_order_n4 counts the (network, tree, order kind) cases alone). "
+    "Widened: every (network, tree, order kind) also through get_numpy_path / flat_tree / get_leaves_ordered / "
+    "get_path_surface / get_ssa_path_surface (+ incomplete prefixes to ContractionTreeCompressed.from_path); a "
+    "'formats' workload per (network 2-12 tensors, random tree): slicing history (0-3 remove_ind, sliced or "
+    "projected, in place or copy, then 0..all restore_ind) x equation / shape getters, from_eq, from_info "
+    "(opt_einsum PathInfo or stand-in; complete / mixed arity / incomplete), from_path(check=True, "
+    "autocomplete='auto'), from_edge_path, is_ssa_path (either format, steps listed either way, cut short), "
+    "interface routes path_explicit / path_tree / path_edge / tree_explicit / tree_edge x canonicalize x cache x "
+    "list|tuple (edge paths: full permutation, cut short, or empty - also under canonicalize=True); incomplete "
+    "prefixes go to ContractionTreeCompressed.from_path as ssa_path= (kind compressed) and as linear path= (kind "
+    "compressed_lin)"
 )
 ASSUMPTIONS = [
     "vf/ref.py path models (check_linear_path, check_ssa_path, path_to_nodes, linear_to_ssa_model, "
@@ -56,6 +94,18 @@ ASSUMPTIONS = [
     "order fidelity is only demanded for strict linear extensions, where 'the order that minimises order(node) "
     "subject to children first' is unique",
     "edge paths: distinct indices that occur on some input (anything else raises KeyError: outside the domain)",
+    "surface getters: the scores are read through tree.surface_order itself (the order callable is an input); "
+    "non-decreasing scores are demanded only when every child scores strictly below its parent (checked per case)",
+    "sliced getters: the reference is the generated network with the removed indices deleted (vf-side list "
+    "comprehension); remove_ind / restore_ind only set the state up (a failure there = inconclusive case, slicing "
+    "is another property)",
+    "from_info: opt_einsum.contract_path(eq, *shapes, shapes=True, optimize=path) is trusted to return a PathInfo "
+    "that carries the given path (checked; otherwise the stand-in object is used)",
+    "is_ssa_path: demanded only for paths valid in exactly one format (vf/ref.py validators, incomplete allowed); "
+    "all such paths are generated, steps listed either way round (is_ssa_true_input_id_first counts the ssa paths "
+    "whose last step starts with an input id)",
+    "scope: the compressed completion ('greedy-compressed' path finder) of a network without any index (empty "
+    "size_dict) is not a path-format conversion; such networks are not given to compressed_prefix",
 ]
 REQUIRED_MONITORS = [
     "build_vs_model",
@@ -76,6 +126,34 @@ REQUIRED_MONITORS = [
     "mixed_from_path",
     "all_trees_enumerated",
     "edge_perms_exhaustive",
+    # widened
+    "numpy_path",
+    "flat_tree",
+    "leaves_ordered",
+    "surface_paths",
+    "surface_sorted",
+    "compressed_prefix",
+    "compressed_prefix_linear",
+    "is_ssa_true_input_id_first",
+    "iface_empty_path_canonicalize",
+    "from_eq",
+    "eq_roundtrip",
+    "eq_getters",
+    "sliced_getters",
+    "sliced_getters_output_index",
+    "restored_getters",
+    "sliced_paths",
+    "from_info",
+    "from_path_check",
+    "from_path_auto",
+    "from_edge_path",
+    "is_ssa_true",
+    "is_ssa_false",
+    "iface_path_explicit",
+    "iface_path_tree",
+    "iface_path_edge",
+    "iface_tree_explicit",
+    "iface_tree_edge",
 ]
 SHARD_TIMEOUT = {"quick": 400, "thorough": 3600}
 EXHAUSTIVE = None
@@ -332,7 +410,7 @@ def check_traversal(rep, trav, ch, n):
     rep.mon("traverse_valid")
 
 
-def check_emitted(rep, n, path, ssa, want, seq, what):
+def check_emitted(rep, n, path, ssa, want, seq, what, mon=None):
     fmt = "ssa" if ssa else "linear"
     need(
         isinstance(path, tuple) and all(isinstance(s, tuple) and len(s) == 2 for s in path),
@@ -344,8 +422,9 @@ def check_emitted(rep, n, path, ssa, want, seq, what):
     need(msg is None, "children_first", lambda: f"{what} is not a valid {fmt} path (an id is used before it exists / path incomplete): {msg}", plain(path))
     nodes = ref.path_to_nodes(n, path, ssa=ssa)
     need(set(nodes) == want and len(nodes) == len(want), "path_nodes", lambda: f"{what} creates nodes {show(set(nodes) - want)} not in the tree / misses {show(want - set(nodes))}", plain(path))
-    need(nodes == seq, "path_follows_traverse", lambda: f"{what} does not follow traverse(order): {show(nodes)} vs {show(seq)}", plain(path))
-    rep.mon("path_valid_" + fmt)
+    need(seq is None or nodes == seq, "path_follows_traverse", lambda: f"{what} does not follow traverse(order): {show(nodes)} vs {show(seq)}", plain(path))
+    rep.mon(mon or "path_valid_" + fmt)
+    return nodes
 
 
 def check_rebuild(rep, net, want, what, **kw):
@@ -386,26 +465,132 @@ def check_pair_ssa(rep, n, s, complete, mon):
     rep.mon(mon)
 
 
-def check_partial(rep, net, path, fmt, dictated, pairwise, what):
-    """from_path on an incomplete / mixed-arity path: autocomplete=True -> complete tree that
-    contains every node the path dictates; autocomplete=False -> exactly the dictated nodes
-    (plus, below a >=3-tensor step, nodes inside it)."""
+def check_partial(rep, net, path, fmt, dictated, pairwise, what, build=None, auto=True, **extra):
+    """from_path on an incomplete / mixed-arity path: autocomplete=True (or "auto": the same
+    with a warning) -> complete tree that contains every node the path dictates;
+    autocomplete=False -> exactly the dictated nodes (plus, below a >=3-tensor step, nodes
+    inside it).  ``build(autocomplete)`` replaces from_path by another constructor that promises
+    the same (from_info, from_edge_path, the interface); ``extra`` (check=True) is passed on."""
     n = net.N
     kw = {"path" if fmt == "linear" else "ssa_path": [tuple(s) for s in path]}
+    kw.update(extra)
     dictated = {d for d in dictated if len(d) > 1}
-    t = call(f"from_path({what}, autocomplete=True)", ContractionTree.from_path, net.inputs, net.output, net.size_dict, autocomplete=True, **kw)
+    if build is None:
+        what = f"from_path({what}"
+        for k, v in extra.items():
+            what += f", {k}={v}"
+
+        def build(autocomplete):
+            return ContractionTree.from_path(net.inputs, net.output, net.size_dict, autocomplete=autocomplete, **kw)
+
+    t = call(f"{what}, autocomplete={auto!r})", build, auto)
     ch = ct.children_of(t)
     msg = ref.check_tree_struct(n, ch)
-    need(msg is None, "autocomplete", lambda: f"from_path({what}, autocomplete=True) is not a complete tree: {msg}", plain(path))
-    need(dictated <= set(ch), "autocomplete", lambda: f"from_path({what}, autocomplete=True) lacks nodes {show(dictated - set(ch))} dictated by the path", plain(path))
-    t = call(f"from_path({what}, autocomplete=False)", ContractionTree.from_path, net.inputs, net.output, net.size_dict, autocomplete=False, **kw)
+    need(msg is None, "autocomplete", lambda: f"{what}, autocomplete={auto!r}) is not a complete tree: {msg}", plain(path))
+    need(dictated <= set(ch), "autocomplete", lambda: f"{what}, autocomplete={auto!r}) lacks nodes {show(dictated - set(ch))} dictated by the path", plain(path))
+    t = call(f"{what}, autocomplete=False)", build, False)
     keys = set(ct.children_of(t))
-    need(dictated <= keys, "no_autocomplete", lambda: f"from_path({what}, autocomplete=False) lacks nodes {show(dictated - keys)}", plain(path))
-    extra = keys - dictated
+    need(dictated <= keys, "no_autocomplete", lambda: f"{what}, autocomplete=False) lacks nodes {show(dictated - keys)}", plain(path))
+    more = keys - dictated
     if pairwise:
-        need(not extra, "no_autocomplete", lambda: f"from_path({what}, autocomplete=False) has nodes {show(extra)} the path never creates", plain(path))
+        need(not more, "no_autocomplete", lambda: f"{what}, autocomplete=False) has nodes {show(more)} the path never creates", plain(path))
     else:
-        need(all(any(k < d for d in dictated) for k in extra), "no_autocomplete", lambda: f"from_path({what}, autocomplete=False) has nodes {show(extra)} outside every step", plain(path))
+        need(all(any(k < d for d in dictated) for k in more), "no_autocomplete", lambda: f"{what}, autocomplete=False) has nodes {show(more)} outside every step", plain(path))
+    return t
+
+
+def flat_nodes(ft):
+    """nested pairs of leaf numbers -> (internal nodes in closing order, leaves left to right)"""
+    nodes, leaves = [], []
+
+    def walk(x):
+        if isinstance(x, tuple):
+            need(len(x) == 2, "flat_tree", lambda: f"flat_tree has a tuple of {len(x)} entries: {x!r:.200}", repr(ft)[:500])
+            both = walk(x[0]) | walk(x[1])
+            nodes.append(both)
+            return both
+        need(isinstance(x, int) and not isinstance(x, bool), "flat_tree", lambda: f"flat_tree has the entry {x!r} (neither a pair nor a leaf number)", repr(ft)[:500])
+        leaves.append(x)
+        return frozenset([x])
+
+    walk(ft)
+    return nodes, leaves
+
+
+def check_getters(rep, tree, n, order, want, tseq, kind):
+    """The other getters of the same tree under the same order: all describe the same set of
+    intermediate tensors, children first."""
+    npth = call("get_numpy_path(order)", tree.get_numpy_path, order)
+    need(
+        isinstance(npth, (list, tuple)) and len(npth) >= 1 and npth[0] == "einsum_path",
+        "numpy_path",
+        lambda: f"get_numpy_path(order) is not ['einsum_path', *pairs]: {npth!r:.300}",
+        repr(npth)[:500],
+    )
+    check_emitted(rep, n, tuple(npth[1:]), False, want, tseq, "get_numpy_path(order)[1:]", mon="numpy_path")
+
+    ft = call("flat_tree(order)", tree.flat_tree, order)
+    nodes, leaves = flat_nodes(ft)
+    need(sorted(leaves) == list(range(n)), "flat_tree", lambda: f"flat_tree(order) has the leaves {leaves}, the tree has 0..{n - 1}", repr(ft)[:500])
+    need(set(nodes) == want and len(nodes) == len(want), "flat_tree", lambda: f"flat_tree(order) brackets {show(set(nodes) - want)} which are not nodes of the tree / misses {show(want - set(nodes))}", repr(ft)[:500])
+    rep.mon("flat_tree")
+
+    if kind in ("none", "compressed", "compressed_lin"):
+        lo = call("get_leaves_ordered()", tree.get_leaves_ordered)
+        got = sorted(sorted(int(i) for i in nd) for nd in lo)
+        need(got == [[i] for i in range(n)], "leaves_ordered", lambda: f"get_leaves_ordered() is not a permutation of the {n} leaves: {got}", got)
+        rep.mon("leaves_ordered")
+
+    if kind in ("surface", "compressed", "compressed_lin"):
+        # here traverse(order) IS the surface order (order='surface_order' / the default order of
+        # ContractionTreeCompressed): the surface getters must emit the same sequence
+        ps = call("get_path_surface()", tree.get_path_surface)
+        check_emitted(rep, n, ps, False, want, tseq, "get_path_surface()", mon="surface_paths")
+        ss = call("get_ssa_path_surface()", tree.get_ssa_path_surface)
+        check_emitted(rep, n, ss, True, want, tseq, "get_ssa_path_surface()", mon="surface_paths")
+        # surface_order = (len(node), centrality) / position in the initial path (inf if absent):
+        # every child scores strictly below its parent, so "minimise order(node), children first"
+        # fixes the sequence of scores (ties may be broken either way): non-decreasing
+        own = {frozenset(p): p for p in tree.children}
+        sc = call("surface_order(node)", lambda: [tree.surface_order(own[p]) for p in tseq])
+        if all(sc[k] < sc[j] for k, p in enumerate(tseq) for j, q in enumerate(tseq) if p < q):
+            need(
+                all(a <= b for a, b in zip(sc, sc[1:])),
+                "order_fidelity",
+                lambda: f"surface order scores every child below its parent, but the surface path does not contract lower scores first: {sc}",
+                plain(ss),
+            )
+            rep.mon("surface_sorted")
+
+
+def check_compressed_prefix(rep, net, ssa, k, linear, auto):
+    """ContractionTreeCompressed.from_path on an incomplete path: completed (autocomplete True or
+    'auto'), contains the prefix, and the prefix stays the head of its default (surface) order -
+    'set the default surface traversal ordering to be the initial path'."""
+    n = net.N
+    pre = [tuple(s) for s in ssa[:k]]
+    head = ref.path_to_nodes(n, pre, ssa=True)
+    kw = {"path": ref.ssa_to_linear_model(pre, n)} if linear else {"ssa_path": pre}
+    what = f"ContractionTreeCompressed.from_path({'path' if linear else 'ssa_path'}=prefix"
+
+    def build(autocomplete):
+        return ContractionTreeCompressed.from_path(net.inputs, net.output, net.size_dict, autocomplete=autocomplete, **kw)
+
+    t = call(f"{what}, autocomplete={auto!r})", build, auto)
+    ch = ct.children_of(t)
+    msg = ref.check_tree_struct(n, ch)
+    need(msg is None, "autocomplete", lambda: f"{what}, autocomplete={auto!r}) is not a complete tree: {msg}", plain(pre))
+    need(set(head) <= set(ch), "autocomplete", lambda: f"{what}, autocomplete={auto!r}) lacks nodes {show(set(head) - set(ch))} dictated by the path", plain(pre))
+    trav = call("traverse()", lambda: [(frozenset(p), frozenset(l), frozenset(r)) for p, l, r in t.traverse()])
+    check_traversal(rep, trav, ch, n)
+    got = [p for p, _, _ in trav][: len(head)]
+    need(got == head, "order_fidelity", lambda: f"{what}, autocomplete={auto!r}): default order starts {show(got)}, the initial path is {show(head)}", plain(pre))
+    t = call(f"{what}, autocomplete=False)", build, False)
+    keys = set(ct.children_of(t))
+    need(keys == set(head), "no_autocomplete", lambda: f"{what}, autocomplete=False) has nodes {show(keys)}, the path creates {show(set(head))}", plain(pre))
+    rep.mon("compressed_prefix")
+    if linear:
+        rep.mon("compressed_prefix_linear")
 
 
 def run_tree(rep, case):
@@ -454,6 +639,8 @@ def run_tree(rep, case):
     need(norm(call("linear_to_ssa", pb.linear_to_ssa, p, n)) == norm(s), "inverse_pair", "linear_to_ssa(get_path(order)) is not get_ssa_path(order)", plain(p))
     need(norm(call("ssa_to_linear", pb.ssa_to_linear, s, n)) == norm(p), "inverse_pair", "ssa_to_linear(get_ssa_path(order)) is not get_path(order)", plain(s))
 
+    check_getters(rep, tree, n, order, want, tseq, kind)
+
     # prefixes = incomplete paths
     if not case.get("prefix", True):
         return
@@ -463,6 +650,17 @@ def run_tree(rep, case):
     k = rng.randint(0, len(p) - 1)
     check_partial(rep, net, s[:k], "ssa", set(tseq[:k]), True, "ssa_path=prefix")
     rep.mon("incomplete_autocomplete")
+    if kind in ("compressed", "compressed_lin"):
+        k = rng.randint(0, len(ssa) - 1)
+        # compressed_lin: the incomplete prefix is handed over as a LINEAR path (path=), compressed: as ssa_path=
+        linear = kind == "compressed_lin"
+        auto = rng.choice([True, "auto"])
+        # scope note: the completion of a ContractionTreeCompressed runs the 'greedy-compressed' path
+        # finder, which does not accept a network without any index (empty size_dict, scalars only);
+        # that is a path finder on a degenerate network, not a path-format conversion - outside
+        # C10's statement, so such networks are not given to this monitor
+        if net.size_dict:
+            check_compressed_prefix(rep, net, ssa, k, linear, auto)
 
 
 def run_pair(rep, case):
@@ -525,6 +723,16 @@ def run_edge(rep, case):
         miss = {node for node, _ in want} - set(ch)
         need(not miss, "edge_tree", lambda: f"from_path(edge_path, autocomplete=True) lacks the nodes {show(miss)} the edge path dictates", plain(s))
         rep.mon("edge_tree_complete")
+    if case.get("via") == "from_edge_path":
+        # the deprecated spelling promises what from_path(edge_path=...) does, options included
+        extra = {"check": True} if case.get("check") else {}
+
+        def build(autocomplete):
+            return ContractionTree.from_edge_path(edge_path, net.inputs, net.output, net.size_dict, autocomplete=autocomplete, **extra)
+
+        pairwise = all(len(kids) <= 2 for _, kids in want)
+        check_partial(rep, net, s, "ssa", {node for node, _ in want}, pairwise, f"from_edge_path({edge_path}", build=build, auto=case.get("auto", True))
+        rep.mon("from_edge_path")
 
 
 def run_mixed(rep, case):
@@ -538,11 +746,273 @@ def run_mixed(rep, case):
         return
     dictated = set(ref.path_to_nodes(n, path, ssa=ssa))
     pairwise = all(len(s) <= 2 for s in path)
-    check_partial(rep, net, path, case["fmt"], dictated, pairwise, f"{case['fmt']} path with steps of {sorted({len(s) for s in path})} tensors")
+    extra = {"check": True} if case.get("check") else {}
+    check_partial(rep, net, path, case["fmt"], dictated, pairwise, f"{case['fmt']} path with steps of {sorted({len(s) for s in path})} tensors", auto=case.get("auto", True), **extra)
     rep.mon("mixed_from_path")
+    if extra:
+        rep.mon("from_path_check")
+    if case.get("auto", True) == "auto" and (ref.check_ssa_path if ssa else ref.check_linear_path)(n, path) is not None:
+        rep.mon("from_path_auto")
 
 
-MODES = {"tree": run_tree, "pair": run_pair, "edge": run_edge, "mixed": run_mixed}
+# ----------------------- equation / shape getters, slicing aware ----------- #
+
+
+def tt(x):
+    return tuple(tuple(t) for t in x)
+
+
+def sliced_model(net, removed):
+    """the network with the removed indices deleted everywhere: (inputs, output, eq, shapes)"""
+    rem = set(removed)
+    inputs = tuple(tuple(ix for ix in t if ix not in rem) for t in net.inputs)
+    output = tuple(ix for ix in net.output if ix not in rem)
+    eq = ",".join("".join(t) for t in inputs) + "->" + "".join(output)
+    shapes = tuple(tuple(int(net.size_dict[ix]) for ix in t) for t in inputs)
+    return inputs, output, eq, shapes
+
+
+def check_eq_getters(rep, tree, net, removed, when):
+    full = sliced_model(net, ())
+    cut = sliced_model(net, removed)
+    off = {"removed": list(removed)}
+    got = call("get_eq()", tree.get_eq)
+    need(got == full[2], "get_eq", lambda: f"{when}: get_eq() = {got!r}, the (total) equation is {full[2]!r}", off)
+    got = tt(call("get_shapes()", tree.get_shapes))
+    need(got == full[3], "get_shapes", lambda: f"{when}: get_shapes() = {got}, inputs x size_dict give {full[3]}", off)
+    got = tt(call("get_inputs_sliced()", tree.get_inputs_sliced))
+    need(got == cut[0], "get_sliced", lambda: f"{when}: get_inputs_sliced() = {got}, inputs without {sorted(removed)} are {cut[0]}", off)
+    got = tuple(call("get_output_sliced()", tree.get_output_sliced))
+    need(got == cut[1], "get_sliced", lambda: f"{when}: get_output_sliced() = {got}, output without {sorted(removed)} is {cut[1]}", off)
+    got = call("get_eq_sliced()", tree.get_eq_sliced)
+    need(got == cut[2], "get_sliced", lambda: f"{when}: get_eq_sliced() = {got!r}, the equation without {sorted(removed)} is {cut[2]!r}", off)
+    got = tt(call("get_shapes_sliced()", tree.get_shapes_sliced))
+    need(got == cut[3], "get_sliced", lambda: f"{when}: get_shapes_sliced() = {got}, shapes without {sorted(removed)} are {cut[3]}", off)
+
+
+def check_paths_of(rep, tree, n, want, when):
+    """slicing never changes the tree: both path getters still describe the same nodes"""
+    p = call("get_path()", tree.get_path)
+    a = check_emitted(rep, n, p, False, want, None, f"{when}: get_path()", mon="sliced_paths")
+    s = call("get_ssa_path()", tree.get_ssa_path)
+    b = check_emitted(rep, n, s, True, want, None, f"{when}: get_ssa_path()", mon="sliced_paths")
+    need(a == b, "path_nodes", f"{when}: get_path() and get_ssa_path() order the contractions differently", plain(p))
+
+
+def setup(rep, what, fn, *a, **kw):
+    """a library call that only prepares the state (slicing belongs to another property): if it
+    fails the case cannot be decided here"""
+    try:
+        return fn(*a, **kw)
+    except OpTimeout:
+        raise
+    except Exception as e:
+        rep.inconclusive_case(f"{what}: {type(e).__name__}: {e}")
+        return None
+
+
+def run_eq(rep, case):
+    from cotengra.utils import eq_to_inputs_output
+
+    net = gen.Net.from_json(case["net"])
+    ssa = [tuple(s) for s in case["ssa"]]
+    n = net.N
+    eq = net.eq()
+    want = set(ref.ssa_to_children(n, ssa))
+    inputs, output, _, shapes = sliced_model(net, ())
+
+    # constructor from the equation: an empty tree over the same network
+    t0 = call("from_eq(eq, size_dict)", ContractionTree.from_eq, eq, net.size_dict, **case.get("ctor_kw", {}))
+    need(
+        t0.N == n and tt(t0.inputs) == inputs and tuple(t0.output) == output,
+        "from_eq",
+        lambda: f"from_eq({eq!r}) has inputs {tt(t0.inputs)} output {tuple(t0.output)}, the equation says {inputs} -> {output}",
+    )
+    need(not ct.children_of(t0), "from_eq", lambda: f"from_eq({eq!r}) is not empty: {show(set(ct.children_of(t0)))}")
+    check_eq_getters(rep, t0, net, (), "from_eq tree")
+    # ... filled in by hand along the path it converts to the same paths
+    nodes = {i: frozenset([i]) for i in range(n)}
+    own = {frozenset(x): x for x in t0.gen_leaves()}
+    for k, (i, j) in enumerate(ssa):
+        new = call("contract_nodes", t0.contract_nodes, [own[nodes.pop(i)], own[nodes.pop(j)]], check=bool(case.get("check")))
+        nodes[n + k] = frozenset(new)
+        own[frozenset(new)] = new
+    check_paths_of(rep, t0, n, want, "from_eq tree contracted along the path")
+    rep.mon("from_eq")
+    # the library's own parser is the second route back
+    back = call("eq_to_inputs_output(get_eq())", eq_to_inputs_output, t0.get_eq())
+    need(tt(back[0]) == inputs and tuple(back[1]) == output, "get_eq", lambda: f"eq_to_inputs_output(get_eq()) = {back}, the network is {inputs} -> {output}")
+    rep.mon("eq_roundtrip")
+
+    tree = call("from_path(ssa_path)", ct.make_tree, net, ssa)
+    check_eq_getters(rep, tree, net, (), "unsliced tree")
+    rep.mon("eq_getters")
+    removed = []
+    for ix, project in case["slices"]:
+        tree = setup(rep, f"remove_ind({ix!r}, project={project})", tree.remove_ind, ix, project=project, inplace=bool(case.get("inplace")))
+        if tree is None:
+            return
+        removed.append(ix)
+        check_eq_getters(rep, tree, net, removed, f"after remove_ind of {removed}")
+        rep.mon("sliced_getters")
+        if ix in net.output:
+            rep.mon("sliced_getters_output_index")
+    if removed:
+        check_paths_of(rep, tree, n, want, f"after remove_ind of {removed}")
+    for ix in case["restore"]:
+        tree = setup(rep, f"restore_ind({ix!r})", tree.restore_ind, ix, inplace=bool(case.get("inplace")))
+        if tree is None:
+            return
+        removed.remove(ix)
+        check_eq_getters(rep, tree, net, removed, f"after remove_ind of {[s[0] for s in case['slices']]} and restore_ind up to {ix!r}")
+        rep.mon("restored_getters")
+    if case["restore"]:
+        check_paths_of(rep, tree, n, want, f"after restore_ind of {case['restore']}")
+
+
+# ----------------------------- from_info ----------------------------------- #
+
+
+def make_info(net, path, standin):
+    """an opt_einsum.PathInfo for (network, explicit linear path); a stand-in with the
+    attributes from_info reads where opt_einsum refuses the input"""
+    if not standin:
+        try:
+            import opt_einsum as oe
+
+            return oe.contract_path(net.eq(), *net.shapes(), shapes=True, optimize=[tuple(s) for s in path])[1], "opt_einsum"
+        except Exception:
+            pass
+    import types
+
+    return types.SimpleNamespace(
+        input_subscripts=",".join("".join(t) for t in net.inputs),
+        output_subscript="".join(net.output),
+        size_dict=dict(net.size_dict),
+        path=[tuple(s) for s in path],
+    ), "standin"
+
+
+def run_info(rep, case):
+    net = gen.Net.from_json(case["net"])
+    path = [tuple(s) for s in case["path"]]
+    n = net.N
+    msg = ref.check_linear_path(n, path, allow_incomplete=True)
+    if msg:
+        rep.inconclusive_case(f"generator produced an invalid path: {msg}")
+        return
+    info, how = make_info(net, path, case.get("standin"))
+    if how == "opt_einsum" and [tuple(s) for s in info.path] != path:
+        info, how = make_info(net, path, True)
+    if how == "standin" and not case.get("standin"):
+        rep.mon("from_info_opt_einsum_refused")  # (the empty path)
+    extra = {"check": True} if case.get("check") else {}
+
+    def build(autocomplete):
+        return ContractionTree.from_info(info, autocomplete=autocomplete, **extra)
+
+    dictated = set(ref.path_to_nodes(n, path))
+    pairwise = all(len(s) <= 2 for s in path)
+    t = check_partial(rep, net, path, "linear", dictated, pairwise, f"from_info({how} PathInfo of {net.eq()} path={plain(path)}", build=build, auto=case.get("auto", True))
+    need(
+        tt(t.inputs) == net.inputs and tuple(t.output) == net.output and all(t.size_dict.get(ix) == net.size_dict[ix] for term in net.inputs for ix in term),
+        "from_info",
+        lambda: f"from_info: tree over {tt(t.inputs)} -> {tuple(t.output)}, the PathInfo describes {net.eq()}",
+        plain(path),
+    )
+    rep.mon("from_info")
+    rep.mon("from_info_" + how)
+
+
+# ----------------------------- is_ssa_path --------------------------------- #
+
+
+def run_isssa(rep, case):
+    """is_ssa_path(path, nterms) 'checks if an explicitly given path is in ssa form': demanded only
+    where the two readings exclude each other - a path valid as ssa and invalid as linear must
+    be recognised, one valid as linear and invalid as ssa must not."""
+    n = case["n"]
+    path = [tuple(s) for s in case["path"]]
+    lin_ok = ref.check_linear_path(n, path, allow_incomplete=True) is None
+    ssa_ok = ref.check_ssa_path(n, path, allow_incomplete=True) is None
+    if lin_ok == ssa_ok:
+        rep.mon("is_ssa_ambiguous")
+        return
+    got = call("is_ssa_path", pb.is_ssa_path, path, n)
+    if ssa_ok:
+        need(bool(got), "is_ssa_path", lambda: f"is_ssa_path({plain(path)}, {n}) = {got!r} for a path that is valid in ssa form only (id >= {n} / position out of range for the linear reading)", plain(path))
+        rep.mon("is_ssa_true")
+        if path and path[-1][0] < n:
+            rep.mon("is_ssa_true_input_id_first")  # the last step lists an input tensor first
+    else:
+        need(not got, "is_ssa_path", lambda: f"is_ssa_path({plain(path)}, {n}) = {got!r} for a path that is valid in linear form only (an id is used twice)", plain(path))
+        rep.mon("is_ssa_false")
+
+
+# ----------------------------- the interface ------------------------------- #
+
+
+def run_iface(rep, case):
+    """explicit paths / edge paths / trees given as ``optimize=`` to array_contract_path /
+    array_contract_tree (find_path, find_tree, canonicalize_inputs): converted without loss"""
+    import cotengra as ctg
+
+    net = gen.Net.from_json(case["net"])
+    ssa = [tuple(s) for s in case["ssa"]]
+    n = net.N
+    route = case["route"]
+    kw = {"canonicalize": bool(case["canon"])}
+    seq_t = (lambda x: [list(s) for s in x]) if case.get("aslist") else (lambda x: tuple(tuple(s) for s in x))
+    want = set(ref.ssa_to_children(n, ssa))
+    lin = ref.ssa_to_linear_model(ssa, n)
+    what = f"{route}(canonicalize={kw['canonicalize']}, cache={case.get('cache')})"
+
+    if route.endswith("_edge") and not case["edge_path"] and kw["canonicalize"]:
+        rep.mon("iface_empty_path_canonicalize")
+    if route in ("path_explicit", "path_tree", "path_edge"):
+        kw["cache"] = bool(case.get("cache"))
+        if route == "path_explicit":
+            opt = seq_t(lin)
+        elif route == "path_tree":
+            opt = call("from_path(ssa_path)", ct.make_tree, net, ssa)
+        else:
+            opt = list(case["edge_path"]) if case.get("aslist") else tuple(case["edge_path"])
+        for rnd in range(2 if kw["cache"] else 1):
+            got = call(f"array_contract_path({what})", ctg.array_contract_path, net.inputs, net.output, net.size_dict, optimize=opt, **kw)
+            if route == "path_explicit":
+                need(norm(got) == norm(lin), "iface_path", lambda: f"array_contract_path({what}, optimize=path) = {plain(got)}, the path given is {plain(lin)}", plain(lin))
+            elif route == "path_tree":
+                check_emitted(rep, n, tuple(tuple(s) for s in got), False, want, None, f"array_contract_path({what}, optimize=tree)", mon="iface_path_tree_valid")
+            else:
+                sim = edge_sim(case["edge_path"], net.inputs, net.output, True)
+                msg = ref.check_linear_path(n, got, allow_incomplete=True)
+                need(msg is None, "edge_invalid", lambda: f"array_contract_path({what}, optimize=edge path) gives an invalid linear path {plain(got)}: {msg}", plain(got))
+                steps = steps_of(n, got, False)
+                need(steps == [(node, kids) for _, node, kids in sim], "edge_step", lambda: f"array_contract_path({what}, optimize=edge path {case['edge_path']}) = {plain(got)} does not contract, index by index, the tensors that carry it: expected nodes {show([s[1] for s in sim])}", plain(got))
+        rep.mon("iface_path")
+        rep.mon("iface_" + route)
+        return
+
+    if route == "tree_explicit":
+        t = call(f"array_contract_tree({what}, optimize=path)", ctg.array_contract_tree, net.inputs, net.output, net.size_dict, optimize=seq_t(lin), **kw)
+        got = set(ct.children_of(t))
+        need(got == want, "iface_tree", lambda: f"array_contract_tree({what}, optimize=path) has nodes {show(got - want)} not in the path, misses {show(want - got)}", plain(lin))
+    elif route == "tree_edge":
+        ep = list(case["edge_path"]) if case.get("aslist") else tuple(case["edge_path"])
+        sim = edge_sim(case["edge_path"], net.inputs, net.output, True)
+        t = call(f"array_contract_tree({what}, optimize=edge path)", ctg.array_contract_tree, net.inputs, net.output, net.size_dict, optimize=ep, **kw)
+        ch = ct.children_of(t)
+        msg = ref.check_tree_struct(n, ch)
+        need(msg is None, "edge_tree", lambda: f"array_contract_tree({what}, optimize=edge path) is not a complete tree: {msg}", list(case["edge_path"]))
+        miss = {node for _, node, _ in sim} - set(ch)
+        need(not miss, "edge_tree", lambda: f"array_contract_tree({what}, optimize=edge path {case['edge_path']}) lacks the nodes {show(miss)} the edge path dictates", list(case["edge_path"]))
+    else:
+        raise ValueError(route)
+    rep.mon("iface_tree")
+    rep.mon("iface_" + route)
+
+
+MODES = {"tree": run_tree, "pair": run_pair, "edge": run_edge, "mixed": run_mixed, "eq": run_eq, "info": run_info, "isssa": run_isssa, "iface": run_iface}
 
 
 def execute(rep, case):
@@ -575,7 +1045,7 @@ def describe(case):
         d = f"{net.cls} {net.eq()}"
     else:
         d = f"n={case['n']}"
-    for k in ("ssa", "order", "fmt", "path", "edge_path", "complete"):
+    for k in ("ssa", "order", "fmt", "path", "edge_path", "complete", "slices", "restore", "route", "canon", "cache", "via", "check", "auto"):
         if k in case:
             d += f" {k}={case[k]}"
     return d[:600]
@@ -635,6 +1105,86 @@ def edge_cases(rep, net, rng, cs, tier, dl):
         ep = rng.sample(inds, rng.randint(0, max(0, m - 1)))
         one(ep, True)
         rep.mon("edge_partial")
+
+
+IFACE_ROUTES = ("path_explicit", "path_tree", "path_edge", "tree_explicit", "tree_edge")
+
+
+def format_cases(rep, cs, k):
+    """one (network, tree) through: equation / shape getters under a slicing history, from_eq,
+    from_info, from_edge_path, from_path(check=True / autocomplete='auto'), is_ssa_path, and the
+    interface's explicit-path handling"""
+    rng = rng_for(cs)
+    if k % 3 == 2:
+        net = gen.network(rng, 2, 6, cap=10**9, classes=("hyper", "perverse", "hadamard", "batch", "graph", "chain", "outer", "disconnected"))
+    else:
+        net = gen.network(rng, 2, 12, cap=10**9)
+    n = net.N
+    nj = net.to_json()
+    ssa = [list(s) for s in gen.random_ssa(rng, n)]
+    tkey = tuple(map(tuple, ssa))
+    inds = all_indices(net)
+    big = n >= 4
+
+    # equation / shape getters, slicing aware
+    m = rng.randint(0, min(3, len(inds)))
+    picked = rng.sample(inds, m)
+    out_inds = [ix for ix in net.output if ix in inds]
+    if out_inds and picked and rng.random() < 0.4 and not set(picked) & set(out_inds):
+        picked[0] = rng.choice(out_inds)
+    slices = [[ix, (rng.randrange(net.size_dict[ix]) if rng.random() < 0.3 else None)] for ix in picked]
+    restore = rng.sample(picked, rng.randint(0, len(picked)))
+    case = {"mode": "eq", "net": nj, "ssa": ssa, "slices": slices, "restore": restore, "inplace": rng.random() < 0.5, "check": rng.random() < 0.3, "case_seed": cs}
+    if rng.random() < 0.3:
+        case["ctor_kw"] = rng.choice([{"track_flops": True}, {"track_childless": True}, {"track_size": True, "track_write": True}])
+    run_case(rep, case, ("eq", net.key(), tkey, tuple(map(tuple, slices)), tuple(restore)), big, "eq:" + net.cls, sample={"eq": net.eq(), "ssa": ssa, "slices": slices, "restore": restore})
+
+    # from_info: complete pairwise / mixed arity / incomplete explicit paths
+    r = rng.random()
+    if r < 0.5:
+        path = ref.ssa_to_linear_model([tuple(s) for s in ssa], n)
+    else:
+        path = random_linear_path(rng, n, complete=r < 0.8, p1=0.1, p3=0.25)
+    case = {"mode": "info", "net": nj, "path": [list(s) for s in path], "standin": rng.random() < 0.15, "check": rng.random() < 0.4, "auto": rng.choice([True, True, "auto"]), "case_seed": cs}
+    run_case(rep, case, ("info", net.key(), tuple(map(tuple, path)), case["standin"], case["check"]), big, "info:" + net.cls, sample={"eq": net.eq(), "path": case["path"]})
+
+    # from_path(check=True / autocomplete="auto") on complete, mixed and incomplete paths
+    fmt = rng.choice(["linear", "ssa"])
+    p1, p3 = rng.choice([(0.1, 0.2), (0.2, 0.3), (0.0, 0.0)])
+    path = (random_linear_path if fmt == "linear" else random_ssa_path)(rng, n, rng.random() < 0.5, p1, p3)
+    case = {"mode": "mixed", "net": nj, "path": [list(s) for s in path], "fmt": fmt, "check": rng.random() < 0.7, "case_seed": cs}
+    case["auto"] = "auto" if (not case["check"] or rng.random() < 0.3) else True
+    run_case(rep, case, ("mixed+", net.key(), fmt, tuple(path), case["check"], case["auto"]), big, "mixed+:" + net.cls, sample={"eq": net.eq(), "path": case["path"], "fmt": fmt, "check": case["check"], "auto": case["auto"]})
+
+    # the deprecated from_edge_path
+    ep = list(inds)
+    rng.shuffle(ep)
+    if rng.random() < 0.4:
+        ep = ep[: rng.randint(0, len(ep))]
+    case = {"mode": "edge", "net": nj, "edge_path": ep, "tree": False, "via": "from_edge_path", "check": rng.random() < 0.3, "auto": rng.choice([True, "auto"]), "case_seed": cs}
+    run_case(rep, case, ("edge+", net.key(), tuple(ep), case["check"]), big, "edge+:" + net.cls, sample={"eq": net.eq(), "edge_path": ep, "via": "from_edge_path"})
+
+    # is_ssa_path: the tree's path in either format, steps listed in either order, maybe cut short
+    fmt = rng.choice(["linear", "ssa"])
+    path = [tuple(s) for s in ssa] if fmt == "ssa" else ref.ssa_to_linear_model([tuple(s) for s in ssa], n)
+    path = [tuple(reversed(s)) if rng.random() < 0.5 else tuple(s) for s in path]
+    if rng.random() < 0.2:
+        path = path[: rng.randint(0, len(path))]
+    case = {"mode": "isssa", "n": n, "path": [list(s) for s in path], "fmt": fmt, "case_seed": cs}
+    run_case(rep, case, ("isssa", n, fmt, tuple(path)), big, "isssa:" + fmt, sample=case)
+
+    # the interface: optimize = explicit path | tree | edge path
+    route = IFACE_ROUTES[(k + rng.randrange(len(IFACE_ROUTES))) % len(IFACE_ROUTES)]
+    case = {"mode": "iface", "net": nj, "ssa": ssa, "route": route, "canon": rng.random() < 0.6, "cache": rng.random() < 0.5, "aslist": rng.random() < 0.5, "case_seed": cs}
+    if route.endswith("_edge"):
+        ep = list(inds)
+        rng.shuffle(ep)
+        if rng.random() < 0.3:
+            ep = ep[: rng.randint(0, len(ep))]
+        if rng.random() < 0.06:
+            ep = []  # "eliminate nothing" = the empty explicit path
+        case["edge_path"] = ep
+    run_case(rep, case, ("iface", net.key(), tkey, route, case["canon"], case["cache"], case["aslist"], tuple(case.get("edge_path", ()))), big, "iface:" + route, sample={"eq": net.eq(), "ssa": ssa, "route": route, "canon": case["canon"], "edge_path": case.get("edge_path")})
 
 
 def _fact(m):
@@ -741,6 +1291,13 @@ def run_shard(rep, tier, seed, shard, nshards):
         case = {"mode": "mixed", "net": net.to_json(), "path": [list(s) for s in path], "fmt": fmt, "case_seed": cs}
         run_case(rep, case, ("mixed", net.key(), fmt, tuple(path)), net.N >= 4, "mixed:" + net.cls, sample={"eq": net.eq(), "path": case["path"], "fmt": fmt})
     lap("E_mixed")
+    # -- F: the other constructors / getters / format helpers
+    dl = Deadline(budget(tier, 8, 50))
+    for k in range(budget(tier, 1500, 15000)):
+        if dl.expired():
+            break
+        format_cases(rep, f"{seed}/C10/{shard}/formats/{k}", k)
+    lap("F_formats")
 
 
 def replay(rep, v):
